@@ -5,11 +5,11 @@ use cgmath::{Deg, Rad};
 use num_traits::Float;
 use serde_json::json;
 
-use crate::fw::{Case, Clause, Extra, RunCfg};
-use crate::gen::{self, Rng, Tier};
-use crate::iv::Tri;
-use crate::sc::{Ck, Rat, Sc};
-use crate::{clause, clause_iv};
+use cgv_core::fw::{Case, Clause, Extra, RunCfg};
+use cgv_core::gen::{self, Rng, Tier};
+use cgv_core::iv::Tri;
+use cgv_core::sc::{Ck, Rat, Sc};
+use cgv_core::{clause, clause_iv};
 
 const TAU: f64 = 2.0 * std::f64::consts::PI;
 
@@ -48,7 +48,7 @@ macro_rules! modular {
             let turn: S = $turn;
             let half = turn / S::i(2);
             let quarter = turn / S::i(4);
-            let mut angle = |rd: &mut crate::fw::Rd| -> S {
+            let mut angle = |rd: &mut cgv_core::fw::Rd| -> S {
                 let f: S = rd.s();
                 let r: S = rd.s();
                 turn * f + r
@@ -252,7 +252,7 @@ impl Nat for f64 {
         x
     }
     fn next_up_n(self) -> f64 {
-        crate::q::next_up(self)
+        cgv_core::q::next_up(self)
     }
 }
 
